@@ -19,10 +19,12 @@ EXPLANATION = (
     "zero operand treated as absent. X2 mpe_semiring turns ALL determined evidence into one conjunction that becomes the only query, clears the "
     "evidence before compiling, forces every queried atom to be decided (qi or not qi), and reads the result of exactly that query. X3 mpe_maxsat "
     "adds a TrueConstraint for every evidence node that is not trivially true before the solver is called; the reported probability multiplies "
-    "weights[i][0] for atoms the solver made true and weights[i][1] for atoms it made false; reported query facts carry the sign of their literal. "
+    "weights[i][0] for atoms the solver made true and weights[i][1] for atoms it made false, where weights is cnf.extract_weights(...) of the CNF that was solved (no other source); reported query facts carry the sign of their literal. "
     "X4 the weighted DIMACS encoding (CNF._contents): the soft clause of an atom's positive weight is violated exactly when the atom is true "
     "([-wt(w_pos), -a]) and that of the negative weight exactly when it is false ([-wt(w_neg), a]); every clause of the formula and every constraint "
-    "is hard (carries the top weight w_max), and w_max exceeds the sum of all soft weights."
+    "is hard (carries the top weight w_max), and w_max exceeds the sum of all soft weights. X5 the semiring mode evaluates the (max, x) semiring on a compiled circuit: "
+    "get_evaluatable(semiring=...) returns the compiling class only when semiring.is_dsp() is True, otherwise the plain NNF, on which a product over children that share a "
+    "choice counts it once per occurrence."
 )
 TECHNIQUE = "static analysis: decision tables of the semiring operations over orderings, AST patterns for literal/weight sign pairing, wiring rules"
 LEVEL_TEXT = EXPLANATION
@@ -262,8 +264,14 @@ def rule_x3(repo, col):
     seen = set()
     for n in prod:
         v = n.value
-        if not (isinstance(v, ast.Subscript) and isinstance(v.value, ast.Subscript)):
-            raise AnalysisError("mpe_maxsat: factor %s not understood" % norm(v))
+        wsrc = [st.targets[0].id for st in walk_no_nested(f.node) if isinstance(st, ast.Assign) and isinstance(st.targets[0], ast.Name) and isinstance(st.value, ast.Call)
+                and isinstance(st.value.func, ast.Attribute) and st.value.func.attr == "extract_weights" and norm(st.value.func.value) == cnf]
+        if not (isinstance(v, ast.Subscript) and isinstance(v.value, ast.Subscript) and isinstance(v.value.value, ast.Name) and v.value.value.id in wsrc):
+            col.fail("X3", m, n, "mpe_maxsat multiplies the reported probability by %s, which is not a weight of the CNF that was solved (%s.extract_weights(...)[atom][0|1]): those weights "
+                     "include the normalisation of annotated disjunctions and the extra node, so any other source reports a probability that is not the one of the returned assignment"
+                     % (norm(v), cnf), function="mpe_maxsat")
+            seen.update((0, 1))
+            continue
         atom = norm(v.value.slice)
         okc, which = const_value(v.slice)
         # the guard: nearest enclosing `X in result` test on the branch taken
@@ -360,7 +368,48 @@ def rule_x4(repo, col):
                % norm(wm[0].value))
 
 
+def rule_x5(repo, col):
+    """the max-product semiring is evaluated on a compiled (decomposable, deterministic) circuit"""
+    from ..index import ClassInfo
+    from ..astutil import single_return_expr
+
+    f = repo.func(MPE, "mpe_semiring")
+    m = f.module
+    sel = [st for st in walk_no_nested(f.node) if isinstance(st, ast.Assign) and isinstance(st.value, ast.Call) and dotted(st.value.func) == "get_evaluatable"]
+    if len(sel) != 1:
+        raise AnalysisError("mpe_semiring: get_evaluatable(...) not found")
+    kws = {k.arg: norm(k.value) for k in sel[0].value.keywords}
+    by_name = (sel[0].value.args and not (isinstance(sel[0].value.args[0], ast.Constant) and sel[0].value.args[0].value is None)) or ("name" in kws and kws["name"] != "None")
+    if by_name:
+        col.ok("X5", m, sel[0], "the knowledge-compilation class is chosen by name", function="mpe_semiring")
+        return
+    # selected through the semiring: problog.get_evaluatable(name=None, semiring) returns the compiling class only for semiring.is_dsp()
+    ge = repo.func("problog", "get_evaluatable")
+    gp = dtable.extract(ge.node)
+    dsp_paths = [p for p in gp if dict((s_, t) for s_, t, _ in p.conds).get("semiring.is_dsp()") is False and dict((s_, t) for s_, t, _ in p.conds).get("name is None")]
+    if not dsp_paths or not all(p.end == "return" for p in dsp_paths):
+        raise AnalysisError("get_evaluatable: the branch for a semiring that does not require a disjoint sum was not found")
+    plain = set(p.value for p in dsp_paths)
+    for cname in ("SemiringMPEState", "SemiringMinPEState"):
+        c = repo.cls(MPE, cname)
+        meth = None
+        for k in repo.mro(c):
+            if isinstance(k, ClassInfo) and "is_dsp" in k.methods:
+                meth = k.methods["is_dsp"]
+                break
+        if meth is None:
+            raise AnalysisError("%s.is_dsp not found in the class hierarchy" % cname)
+        e = single_return_expr(meth)
+        if e is None or not isinstance(e, ast.Constant):
+            raise AnalysisError("%s: is_dsp() is not a constant" % meth.qualname)
+        col.decide("X5", c.module, c.node, e.value is True, "%s is evaluated on a compiled circuit" % cname,
+                   "%s.is_dsp() is %s (inherited from %s), so get_evaluatable(semiring=...) in mpe_semiring selects %s: the ground program is evaluated as a plain NNF, which is neither "
+                   "decomposable nor deterministic, and times() multiplies the probability of a shared choice once per occurrence - the reported probability is not the probability of the "
+                   "returned assignment" % (cname, e.value, meth.qualname, sorted(plain)), construct="class %s: is_dsp" % cname, function=cname)
+
+
 def run(repo, col):
+    col.rule("X5", "max-product needs a decomposable circuit: the MPE semirings must select a compiling evaluatable")
     col.rule("X1", "SemiringMPEState / SemiringMinPEState operation tables")
     col.rule("X2", "mpe_semiring: evidence conjunction is the query; order of clearing, compiling, evaluating")
     col.rule("X3", "mpe_maxsat: evidence as hard constraints; literal/weight and literal/fact sign pairing")
@@ -369,3 +418,4 @@ def run(repo, col):
     rule_x2(repo, col)
     rule_x3(repo, col)
     rule_x4(repo, col)
+    rule_x5(repo, col)
